@@ -22,7 +22,8 @@ def build(cfg):
     from amaranth_soc import event
     modes = cfg["modes"]
     n = len(modes)
-    srcs = [event.Source(trigger=t, path=(f"s{k}",)) for k, t in enumerate(modes)]
+    # (same_path: every source carries the same path, hence the same signal names - names must not matter)
+    srcs = [event.Source(trigger=t, path=(("s",) if cfg.get("same_path") else (f"s{k}",))) for k, t in enumerate(modes)]
     emap = event.EventMap()
     order = cfg.get("order") or list(range(n))
     for k in order:
@@ -51,8 +52,17 @@ class Observer:
         self.ptrg = [comp.probe_index[f"trg{k}"] for k in range(n)]
         self.ppend, self.psrc = comp.probe_index["pending"], comp.probe_index["src_i"]
         self.init = (0, 0)
-        doms = [range(1 << w) for w in comp.in_widths]
-        self._letters = list(itertools.product(*doms))
+        if cfg.get("wide"):
+            # many sources: source vector, enable and clear mask each from {0, all ones, every single bit}
+            vecs = [0, (1 << n) - 1] + [1 << k for k in range(n)]
+            self._letters = []
+            for sv, en, cl in itertools.product(vecs, repeat=3):
+                d = {f"i{k}": (sv >> k) & 1 for k in range(n)}
+                d.update(enable=en, clear=cl)
+                self._letters.append(tuple(d[nme] for nme in comp.in_names))
+        else:
+            doms = [range(1 << w) for w in comp.in_widths]
+            self._letters = list(itertools.product(*doms))
         self.bad_map = None
         if h.meta["widths"] != [n, n, n]:
             self.bad_map = f"enable/pending/clear are {h.meta['widths']} bits wide for {n} sources"
@@ -109,6 +119,12 @@ def configs(tier):
     out.append(dict(modes=("rise", "fall"), order=[1, 0], repeat=True, trigger="rise"))
     out.append(dict(modes=("level", "fall", "rise"), order=[1, 2, 0], repeat=True, trigger="fall"))
     out.append(dict(modes=("rise", "level"), elab_twice=True))
+    out.append(dict(modes=("rise", "rise"), same_path=True))
+    out.append(dict(modes=("fall", "rise", "fall"), same_path=True))
+    # five and more sources (token alphabets): counts that are not multiples of four / powers of two
+    for n in (5, 6) + ((7, 9) if tier == "thorough" else ()):
+        out.append(dict(modes=("level",) * (n - 1) + ("rise",), wide=True))
+    out.append(dict(modes=("fall",) + ("level",) * 4, wide=True, order=[4, 3, 2, 1, 0]))
     out.append(dict(modes=("fall", "rise", "level"), order=[1, 2, 0], elab_twice=True))
     if tier == "thorough":
         for modes in itertools.product(MODES, repeat=4):
